@@ -24,6 +24,8 @@ class DBM:
         d = DBM(self.vars)
         d.m = dict(self.m)
         d.bottom = self.bottom
+        if getattr(self, "neq", None):
+            d.neq = set(self.neq)      # remembered disequalities x − y ≠ k (see selection.refine_terms)
         return d
 
     def get(self, x, y):
